@@ -318,7 +318,14 @@ def model_undictify_circuit(ctx, a, res, rec):
         return _viol("wrong-type", f"{type(res).__name__} is not a circuit")
     if len(res.components) != len(exps):
         return _viol("wrong-component-count", f"{len(res.components)} != {len(exps)}")
-    for c, e in zip(res.components, exps):
+    try:
+        by_id = {c.id: c for c in res.components}       # C17 does not state an order of the components
+    except (AttributeError, TypeError) as e:
+        return _viol("wrong-type", f"{type(e).__name__}: {e}")
+    for e in exps:
+        c = by_id.get(e[1])
+        if c is None:
+            return _viol("wrong-identity", f"no component with id {e[1]!r}")
         v = _check_component(c, e)
         if v:
             return v
